@@ -43,7 +43,8 @@ def _cases(draw, tier):
     steps = [draw(_op(dim)) for _ in range(nsteps)]
     if steps[0]["op"] == "read":
         steps.append(draw(_op(dim)))
-    return {"shapes": shapes, "container": nel > 0, "steps": steps, "dim": dim}
+    # the whole scene may be given in very small (or large) units: every coordinate and translation vector times an exact power of two
+    return {"shapes": shapes, "container": nel > 0, "steps": steps, "dim": dim, "scale_exp": draw(st.sampled_from([0, 0, 0, 0, 0, 0, -30, -30, 20]))}
 
 
 def _rot(p, o, axis, ang, sense):
@@ -61,9 +62,9 @@ def _rot(p, o, axis, ang, sense):
     return [x + y for x, y in zip(r, o)]
 
 
-def _apply(obj, st_, inplace):
+def _apply(obj, st_, inplace, S=1.0):
     if st_["op"] == "translate":
-        return operations.translate(obj, list(st_["vec"]), inplace=inplace)
+        return operations.translate(obj, [x * S for x in st_["vec"]], inplace=inplace)
     if st_["op"] == "rotate":
         return operations.rotate(obj, st_["angle"], axis=st_["axis"], inplace=inplace)
     return operations.scale(obj, st_["mult"], inplace=inplace)
@@ -83,7 +84,20 @@ def _map_point(p, maps, sense):
 
 
 def check_transform(case, ctx):
-    objs = [build.make(d) for d in case["shapes"]]
+    S = 2.0 ** case.get("scale_exp", 0)
+    ctx.label("tiny-or-large-units", S != 1.0)
+
+    def _scaled(d):
+        if S == 1.0:
+            return d
+        d = dict(d)
+        d["P"] = [[c * S for c in q] for q in d["P"]]
+        return d
+
+    def _un(p):
+        # back to the units of the generated definition (exact: S is a power of two)
+        return [x / S for x in p]
+    objs = [build.make(_scaled(d)) for d in case["shapes"]]
     Rs = [build.exact_from(d, o) for d, o in zip(case["shapes"], objs)]
     lats = [shape.obj_lattice(o) for o in objs]
     if case["container"]:
@@ -168,7 +182,7 @@ def check_transform(case, ctx):
         if st_["op"] == "noop":
             res = tgt
         else:
-            res = _apply(tgt, st_, st_["inplace"])
+            res = _apply(tgt, st_, st_["inplace"], S)
             did.append(st_["op"] + ("!" if st_["inplace"] else ""))
         if st_["op"] == "noop":
             pass
@@ -196,7 +210,7 @@ def check_transform(case, ctx):
                                   "after %r the weights of target %d changed: %r -> %r" % (did, ti, d["W"], w_after))
                     for us, (p, sc) in zip(lat, ex):
                         want = _map_point(p, mp, sense)
-                        got = e.evaluate_single(build.call_param(e, [float(x) for x in us]))
+                        got = _un(e.evaluate_single(build.call_param(e, [float(x) for x in us])))
                         mag = 1.0 + sc + max(abs(x) for x in want) + max(abs(x) for x in p0)
                         for mm in mp:
                             if mm[0] == "scale":
@@ -210,7 +224,7 @@ def check_transform(case, ctx):
                     if fail:
                         break
                     # sampled grid of the element
-                    ev = [list(q) for q in e.evalpts]
+                    ev = [_un(q) for q in e.evalpts]
                     gex = grid_exact[els.index(e)]
                     if len(ev) != len(gex):
                         fail = "after %r target %d: evalpts has %d points, expected %d" % (did, ti, len(ev), len(gex))
@@ -230,7 +244,7 @@ def check_transform(case, ctx):
                         break
                 if not fail and case["container"] and tg is fresh_copy:
                     # a container just returned by a non-inplace transform: its aggregated evalpts are the mapped grids
-                    agg = [list(q) for q in tg.evalpts]
+                    agg = [_un(q) for q in tg.evalpts]
                     flat = [(p, sc) for gex in grid_exact for (p, sc) in gex]
                     if len(agg) != len(flat):
                         fail = "after %r: the returned container's evalpts has %d points, expected %d" % (did, len(agg), len(flat))
